@@ -843,6 +843,12 @@ func runParts() {
 	if thorough {
 		dense = 1200
 	}
+	// ---- histories in one process (single processor: before anything runs in parallel)
+	if thorough {
+		rep.NonTrivial(runProcHist(4))
+	} else {
+		rep.NonTrivial(runProcHist(3))
+	}
 	// ---- matrix
 	type job struct {
 		id int32
@@ -1084,6 +1090,8 @@ func judge(c Case) []fail {
 		return judgeReject(c, 0)
 	case "loopback":
 		return judgeLoopback(c)
+	case "prochist":
+		return judgeProcHist(c)
 	}
 	engine.HarnessError("unknown case part %q", c.Part)
 	return nil
